@@ -236,7 +236,7 @@ func (h *memHost) Close() error {
 	return err
 }
 
-func newMemHost(w *memWorld, id *keys.Identity, ip string, listen bool) (*memHost, error) {
+func newMemHost(w *memWorld, id *keys.Identity, ip string, listen bool, negTimeout time.Duration) (*memHost, error) {
 	ps, err := pstoremem.NewPeerstore()
 	if err != nil {
 		return nil, err
@@ -268,7 +268,7 @@ func newMemHost(w *memWorld, id *keys.Identity, ip string, listen bool) (*memHos
 			return nil, err
 		}
 	}
-	h, err := bhost.NewHost(sw, &bhost.HostOpts{EventBus: bus})
+	h, err := bhost.NewHost(sw, &bhost.HostOpts{EventBus: bus, NegotiationTimeout: negTimeout})
 	if err != nil {
 		sw.Close()
 		ps.Close()
@@ -281,10 +281,26 @@ func newMemHost(w *memWorld, id *keys.Identity, ip string, listen bool) (*memHos
 // runHostStreams connects hosts[0] to hosts[1] and runs the planned streams through
 // Host.NewStream / SetStreamHandler; inbound streams are routed by protocol id.
 func runHostStreams(f failer, env runEnv, hosts [2]host.Host, c *hostCase) streamsOutcome {
-	incoming := make([]chan network.Stream, len(c.Streams))
+	incoming := make([]chan halfStream, len(c.Streams))
+	caseOver := make(chan struct{})
+	defer close(caseOver)
 	for i, sp := range c.Streams {
-		incoming[i] = make(chan network.Stream, 1)
+		incoming[i] = make(chan halfStream, 1)
 		ch := incoming[i]
+		if i < len(c.Sync) && c.Sync[i] {
+			// the handler keeps the stream for itself: it returns only when the stream is done with
+			// (the runner closes or resets every stream it was given), like a handler that serves
+			// the stream synchronously
+			hosts[1-sp.Opener].SetStreamHandler(pidOf(i), func(s network.Stream) {
+				hs := &heldStream{Stream: s, released: make(chan struct{})}
+				ch <- hs
+				select {
+				case <-hs.released:
+				case <-caseOver:
+				}
+			})
+			continue
+		}
 		hosts[1-sp.Opener].SetStreamHandler(pidOf(i), func(s network.Stream) { ch <- s })
 	}
 	limit := 10 * time.Minute
@@ -338,6 +354,120 @@ func runHostStreams(f failer, env runEnv, hosts [2]host.Host, c *hostCase) strea
 type hostCase struct {
 	muxCase
 	Lazy []bool // per stream: the opener already "knows" the protocol (lazy negotiation wrapper)
+	Sync []bool // per stream: the acceptor's handler does not return while the stream is in use
+	// HostOpts.NegotiationTimeout of both hosts: 0 = the default (10 s), < 0 = none
+	NegTimeout time.Duration
+}
+
+func (c *hostCase) negTimeout() time.Duration {
+	switch {
+	case c.NegTimeout == 0:
+		return bhost.DefaultNegotiationTimeout
+	case c.NegTimeout < 0:
+		return 0
+	}
+	return c.NegTimeout
+}
+
+// heldStream is an inbound stream whose handler is still running; Close and Reset (the
+// runner's last call on every stream) let the handler return.
+type heldStream struct {
+	network.Stream
+	once     sync.Once
+	released chan struct{}
+}
+
+func (h *heldStream) release() { h.once.Do(func() { close(h.released) }) }
+
+func (h *heldStream) Close() error {
+	defer h.release()
+	return h.Stream.Close()
+}
+
+func (h *heldStream) Reset() error {
+	defer h.release()
+	return h.Stream.Reset()
+}
+
+var negTimeouts = []time.Duration{0, 0, time.Second, 3 * time.Second, 30 * time.Second, -1}
+
+// drawHostDims draws the host-level dimensions of every stream (negotiation style, handler
+// style) and the hosts' negotiation timeout.
+func drawHostDims(rt *rapid.T, c *hostCase) {
+	c.NegTimeout = rapid.SampledFrom(negTimeouts).Draw(rt, "negotiation-timeout")
+	for i := range c.Streams {
+		c.Lazy = append(c.Lazy, rapid.IntRange(0, 2).Draw(rt, fmt.Sprintf("s%d-lazy", i)) > 0)
+		c.Sync = append(c.Sync, rapid.IntRange(0, 2).Draw(rt, fmt.Sprintf("s%d-sync-handler", i)) > 0)
+		if c.Lazy[i] {
+			// The opener's end of a lazily negotiated stream performs the multistream handshake
+			// inside its first Write / Read (and in a goroutine of its own); a deadline that
+			// expires in there fails the negotiation for good, by design. Deadlines on that end
+			// are therefore not generated; the acceptor's end (a plain swarm stream) keeps them.
+			c.Streams[i].Fwd.DL.W = 0
+			c.Streams[i].Rev.DL.R = 0
+			// For the same reason the opener does not idle before the protocol has been negotiated,
+			// i.e. before its first bytes are on the wire: the acceptor's host gives up on a stream
+			// that does not name its protocol within the negotiation timeout, by design. The long
+			// pause moves behind the first non-empty Write (or goes away if there is none).
+			if f := &c.Streams[i].Fwd; f.DL.WLong > 0 {
+				first := 0
+				for first < len(f.Writes) && f.Writes[first] == 0 {
+					first++
+				}
+				if f.DL.WLongAt <= first {
+					f.DL.WLongAt = first + 1
+				}
+				if f.DL.WLongAt >= len(f.Writes) {
+					f.DL.WLong, f.DL.WLongAt = 0, 0
+				}
+			}
+		}
+	}
+}
+
+// hostLabels: generated host-level classes. outlives = a stream whose inbound end is held by
+// a synchronous handler stays in use beyond the acceptor's negotiation timeout.
+func hostLabels(c *hostCase) (labels []string) {
+	nl, ne := 0, 0
+	for i, l := range c.Lazy {
+		if l {
+			nl++
+			if len(c.Streams[i].Fwd.Writes) == 0 {
+				labels = append(labels, "lazy:closewrite-before-any-write")
+			} else if c.Streams[i].Fwd.Total == 0 {
+				labels = append(labels, "lazy:empty-write-then-closewrite")
+			}
+		} else {
+			ne++
+		}
+	}
+	if nl > 0 {
+		labels = append(labels, "lazy-negotiation")
+	}
+	if ne > 0 {
+		labels = append(labels, "eager-negotiation")
+	}
+	switch {
+	case c.NegTimeout == 0:
+		labels = append(labels, "negotiation-timeout:default-10s")
+	case c.NegTimeout < 0:
+		labels = append(labels, "negotiation-timeout:none")
+	default:
+		labels = append(labels, fmt.Sprintf("negotiation-timeout:%v", c.NegTimeout))
+	}
+	for i, sy := range c.Sync {
+		if !sy {
+			labels = append(labels, "handler:hands-stream-over-and-returns")
+			continue
+		}
+		labels = append(labels, "handler:keeps-stream-until-done")
+		sp := c.Streams[i]
+		idle := max(sp.Fwd.DL.WLong, sp.Fwd.DL.RLong, sp.Rev.DL.WLong, sp.Rev.DL.RLong)
+		if nt := c.negTimeout(); nt > 0 && idle > nt {
+			labels = append(labels, "handler:keeps-stream-beyond-negotiation-timeout")
+		}
+	}
+	return labels
 }
 
 func pidOf(idx int) protocol.ID { return protocol.ID(fmt.Sprintf("/c02/stream/%d", idx)) }
@@ -357,17 +487,7 @@ func TestL5Hosts(t *testing.T) {
 		// multistream negotiation runs on the stream itself before the payload (a few dozen
 		// bytes each way): the polling class gets that much less than the initial window
 		c.Streams = drawStreams(rt, 4, 1, yamuxWindow-1024)
-		for i := range c.Streams {
-			c.Lazy = append(c.Lazy, rapid.IntRange(0, 2).Draw(rt, fmt.Sprintf("s%d-lazy", i)) > 0)
-			if c.Lazy[i] {
-				// The opener's end of a lazily negotiated stream performs the multistream handshake
-				// inside its first Write / Read (and in a goroutine of its own); a deadline that
-				// expires in there fails the negotiation for good, by design. Deadlines on that end
-				// are therefore not generated; the acceptor's end (a plain swarm stream) keeps them.
-				c.Streams[i].Fwd.DL.W = 0
-				c.Streams[i].Rev.DL.R = 0
-			}
-		}
+		drawHostDims(rt, c)
 		var out streamsOutcome
 		hx.Bubble(t, rt, func() {
 			w := &memWorld{listeners: map[string]*memnet.Listener{}, c: &c.muxCase}
@@ -376,12 +496,12 @@ func TestL5Hosts(t *testing.T) {
 					p.Close()
 				}
 			}()
-			hA, err := newMemHost(w, keys.Ed(1), "10.0.0.1", false)
+			hA, err := newMemHost(w, keys.Ed(1), "10.0.0.1", false, c.NegTimeout)
 			if err != nil {
 				rt.Fatalf("host A: %v", err)
 			}
 			defer hA.Close()
-			hB, err := newMemHost(w, keys.Ed(2), "10.0.0.2", true)
+			hB, err := newMemHost(w, keys.Ed(2), "10.0.0.2", true, c.NegTimeout)
 			if err != nil {
 				rt.Fatalf("host B: %v", err)
 			}
@@ -390,29 +510,11 @@ func TestL5Hosts(t *testing.T) {
 		})
 		labels, nontrivial := streamLabels(c.Streams, out, yamuxFrame)
 		labels = append(labels, stackLabels(&c.muxCase)...)
-		nl, ne := 0, 0
-		for i, l := range c.Lazy {
-			if l {
-				nl++
-				if len(c.Streams[i].Fwd.Writes) == 0 {
-					labels = append(labels, "lazy:closewrite-before-any-write")
-				} else if c.Streams[i].Fwd.Total == 0 {
-					labels = append(labels, "lazy:empty-write-then-closewrite")
-				}
-			} else {
-				ne++
-			}
-		}
-		if nl > 0 {
-			labels = append(labels, "lazy-negotiation")
-		}
-		if ne > 0 {
-			labels = append(labels, "eager-negotiation")
-		}
-		stats.Case(name, c.fingerprint()+fmt.Sprint(c.Lazy), nontrivial, dedup(labels)...)
+		labels = append(labels, hostLabels(c)...)
+		stats.Case(name, c.fingerprint()+fmt.Sprint(c.Lazy, c.Sync, c.NegTimeout), nontrivial, dedup(labels)...)
 		if stats.WantSample(name) {
 			m := c.sample()
-			m["lazy"] = c.Lazy
+			m["lazy"], m["handler_keeps_stream"], m["negotiation_timeout"] = c.Lazy, c.Sync, c.NegTimeout.String()
 			stats.Sample(name, m)
 		}
 	})
